@@ -9,7 +9,7 @@ from checks.C01 import SKELETONS, LONG, STUBS
 BOUNDS = {
     "quick": "idempotence + the four mode round trips on the 21 C01 skeletons with every hole string of length 0..1 (2 in path/query/fragment) x quoted, strip_fragment alternating; "
              "spelling transformations (case of scheme/host, explicit default port, lower-case hex in escapes (mid-segment, whole last segment, after a '.' in the last segment), escaping an unreserved character, raw space vs %20, "
-             "surrounding whitespace, an embedded control character, './', 'x/../', doubled '/', empty '?' / '#') applied around a hole of length 0..2",
+             "surrounding whitespace, an embedded control character, './', 'x/../', '..' with escaped dots, doubled '/', empty '?' / '#') applied around a hole of length 0..2",
     "thorough": "holes of length 0..3 (2 in netloc positions) x quoted x strip_fragment; transformations around holes of length 0..3",
 }
 TRUSTED = ["pysx engine", "z3 (no oracle: the assertions relate calls of the real function)"]
@@ -111,6 +111,11 @@ def spelling(st, kind, n, quoted, sf):
     elif kind == "dot-segment":
         u = cat("http://x.fr/a/", h, "?q")
         v = cat("http://x.fr/./a/./", h, "?q")
+    elif kind in ("dotdot-half-escaped-1", "dotdot-half-escaped-2", "dotdot-escaped"):
+        # '..' with one or both dots written as an escape is the same dot segment
+        seg = {"dotdot-half-escaped-1": ".%2E", "dotdot-half-escaped-2": "%2e.", "dotdot-escaped": "%2E%2e"}[kind]
+        u = cat("http://x.fr/a/b/../c", h)
+        v = cat("http://x.fr/a/b/", seg, "/c", h)
     elif kind == "dotdot-segment":
         u = cat("http://x.fr/a/", h, "#f")
         v = cat("http://x.fr/a/x/../", h, "#f")
@@ -131,6 +136,8 @@ def spelling(st, kind, n, quoted, sf):
     else:
         raise ValueError(kind)
     run_prop(st, "spelling/" + kind, S.same_canonical, u, v, quoted, sf)
+    # both spellings are also inputs of their own
+    run_prop(st, "idempotent", S.idempotent, v, quoted, sf)
 
 
 def raise_cut(st):
@@ -138,7 +145,7 @@ def raise_cut(st):
 
 
 KINDS = ["host-case", "host-case-sym", "default-port", "default-port-https", "hex-case", "hex-case-tail", "hex-case-dot-tail", "escape-unreserved", "space",
-         "outer-whitespace", "control", "dot-segment", "dotdot-segment", "double-slash", "empty-query", "empty-fragment"]
+         "outer-whitespace", "control", "dot-segment", "dotdot-segment", "dotdot-half-escaped-1", "dotdot-half-escaped-2", "dotdot-escaped", "double-slash", "empty-query", "empty-fragment"]
 
 
 def items(tier):
